@@ -20,10 +20,38 @@ import (
 // conversions, operand order of commutative operators and source positions do
 // not matter.
 type Canon struct {
-	p     *Program
-	fn    *ssa.Function
-	memo  map[ssa.Value]string
-	stack map[ssa.Value]bool
+	p      *Program
+	fn     *ssa.Function
+	memo   map[ssa.Value]string
+	stack  map[ssa.Value]bool
+	locals map[*ssa.Alloc]string
+}
+
+// localName names an address-taken local by its type and ordinal among the
+// function's locals of that type, so renaming a variable changes nothing.
+func (c *Canon) localName(a *ssa.Alloc) string {
+	if c.locals == nil {
+		c.locals = map[*ssa.Alloc]string{}
+		count := map[string]int{}
+		fn := a.Parent()
+		for _, b := range fn.Blocks {
+			for _, in := range b.Instrs {
+				if al, ok := in.(*ssa.Alloc); ok {
+					switch al.Comment {
+					case "complit", "varargs", "new", "makeslice", "slicelit", "":
+						continue
+					}
+					t := short(al.Type().(*types.Pointer).Elem().String())
+					count[t]++
+					c.locals[al] = fmt.Sprintf("«%s#%d»", t, count[t])
+				}
+			}
+		}
+	}
+	if n, ok := c.locals[a]; ok {
+		return n
+	}
+	return a.Comment
 }
 
 const maxDepth = 48
@@ -180,7 +208,7 @@ func (c *Canon) render(v ssa.Value, d int) string {
 			return lit
 		}
 		if v.Comment != "" {
-			return "&" + v.Comment
+			return "&" + c.localName(v)
 		}
 		return "&new(" + short(v.Type().String()) + ")"
 	case *ssa.FieldAddr:
@@ -217,7 +245,7 @@ func (c *Canon) render(v ssa.Value, d int) string {
 					return t[1:]
 				}
 				if x.Comment != "" {
-					return x.Comment
+					return c.localName(x)
 				}
 			case *ssa.FreeVar:
 				return "‹" + x.Name() + "›"
